@@ -369,17 +369,20 @@ def _nonneg(st, d, depth, strict):
     iv = _eval_direct(st, aff_concretize(st, d))
     if iv[0] >= strict:
         return True
-    if depth == 0 or not st.rel or len(st.rel) > 200:
+    if depth == 0 or not st.rel or len(st.rel) > 120:
         return False
-    if len(st.rel) > 80:
-        return False
+    atoms = set(d.co)
     for (x, y), r in st.rel.items():
-        # fact: x r y with x < y as vids; derive a non-negative form g = hi - lo (or >= 1 when strict)
+        if '>' in r and '<' in r:
+            continue
+        ax, ay = aff_of(x), aff_of(y)
+        if ax.mod or ay.mod or not (atoms & (set(ax.co) | set(ay.co))):
+            continue        # the fact shares no atom with the goal: it cannot cancel anything
         cands = []
         if '>' not in r:
-            cands.append((aff_add(aff_of(y), aff_of(x), -1), 0 if '=' in r else 1))      # y - x >= 0 / >= 1
+            cands.append((aff_add(ay, ax, -1), 0 if '=' in r else 1))      # y - x >= 0 / >= 1
         if '<' not in r:
-            cands.append((aff_add(aff_of(x), aff_of(y), -1), 0 if '=' in r else 1))      # x - y >= 0 / >= 1
+            cands.append((aff_add(ax, ay, -1), 0 if '=' in r else 1))      # x - y >= 0 / >= 1
         for g, gmin in cands:
             if g is None or g.mod:
                 continue
